@@ -276,7 +276,8 @@ fn fuzz_stage(ctx: &Ctx, mode: Mode, total: &mut Summary, extra: &mut serde_json
         }
     }
     if execs == 0 {
-        execs = log.lines().filter_map(|l| l.trim().strip_prefix('#')).filter_map(|r| r.split_whitespace().next()).filter_map(|n| n.parse::<u64>().ok()).max().unwrap_or(0);
+        // fork mode prints "#<total execs>: cov: N ft: N corp: N exec/s: N oom/timeout/crash: a/b/c ..."
+        execs = log.lines().filter_map(|l| l.trim().strip_prefix('#')).filter_map(|r| r.split_whitespace().next()).filter_map(|n| n.trim_end_matches(':').parse::<u64>().ok()).max().unwrap_or(0);
     }
     let cov = log.lines().filter_map(|l| l.split("cov: ").nth(1)).filter_map(|r| r.split_whitespace().next()).filter_map(|n| n.parse::<u64>().ok()).max().unwrap_or(0);
     let t = triage_files(ctx, &bin("ASEMON_BIN_CHECKED", "target/checked/asemon"), mode, &dir);
